@@ -1353,6 +1353,95 @@ package gocql
 //@   ensures !(host.dataCenter == d.localDC && host.rack != d.localRack) ==> same(d.hosts[1].list.v, old(d.hosts[1].list.v))
 //@   ensures !(host.dataCenter != d.localDC) ==> same(d.hosts[2].list.v, old(d.hosts[2].list.v))
 
+// ---------------------------------------------------------------------------
+// topology.go / token.go (C10): replica placement
+// ---------------------------------------------------------------------------
+
+//@ func getReplicationFactorFromOpts
+//@   props C10
+//@   ensures result1 == nil ==> result0 >= 0
+//@   ensures result1 != nil ==> result0 == 0
+
+//@ func (s *simpleStrategy) replicationFactor
+//@   props C10
+//@   ensures result == s.rf
+
+//@ func (n *networkTopology) replicationFactor
+//@   props C10
+//@   modifies nothing
+
+//@ func (recv StdLogger) Printf
+//@   interface
+//@   trusted logging does not touch driver state
+//@   modifies nothing
+
+//@ func (recv StdLogger) Println
+//@   interface
+//@   trusted logging does not touch driver state
+//@   modifies nothing
+
+// strategy selection: SimpleStrategy carries the parsed (non-negative) factor; an unparsable
+// factor or an unsupported class gives no strategy (token-aware routing falls back to the ring owner)
+//@ func getStrategy
+//@   props C10
+//@   requires ks != nil && logger != nil
+//@   modifies nothing
+//@   ensures result == nil || typeis(result, *simpleStrategy) || typeis(result, *networkTopology)
+//@   ensures typeis(result, *simpleStrategy) ==> unbox(result, *simpleStrategy) != nil && unbox(result, *simpleStrategy).rf >= 0
+//@   ensures typeis(result, *networkTopology) ==> unbox(result, *networkTopology) != nil && unbox(result, *networkTopology).dcs != nil
+
+//@ func (h *HostInfo) Tokens
+//@   props C10
+//@   modifies nothing
+//@   ensures same(result, h.tokens)
+
+//@ func (recv partitioner) ParseString
+//@   interface
+//@   trusted the three partitioners parse without touching driver state
+//@   modifies nothing
+
+// the ring always has a partitioner (Pick relies on it) and keeps the host list it was built from
+//@ func newTokenRing
+//@   props C10 C11
+//@   requires forall(k, 0 <= k && k < len(hosts), hosts[k] != nil)
+//@   ensures result1 == nil ==> result0 != nil && result0.partitioner != nil && same(result0.hosts, hosts)
+//@   ensures result1 != nil ==> result0 == nil
+//@   loop 0: invariant tokenRing != nil && fresh(tokenRing) && tokenRing.partitioner != nil && same(tokenRing.hosts, hosts)
+//@   loop 1: invariant tokenRing != nil && fresh(tokenRing) && tokenRing.partitioner != nil && same(tokenRing.hosts, hosts)
+
+//@ func (t *tokenRing) Swap
+//@   props C10
+//@   sorts t.tokens
+//@   requires 0 <= i && i < len(t.tokens) && 0 <= j && j < len(t.tokens)
+
+// SimpleStrategy: every ring token gets the next distinct nodes clockwise, at most rf of them,
+// the token's owner first. sort.Sort permutes the entries (modelled as a permutation).
+// Assumption: rf <= 65536 (the capacity of each replica list is allocated up front).
+//@ func (s *simpleStrategy) replicaMap
+//@   props C10
+//@   abstract_rem int
+//@   requires tokenRing != nil && 0 <= s.rf && s.rf <= 1<<16
+//@   ensures len(result) == len(tokenRing.tokens)
+//@   ensures forall(e, 0 <= e && e < len(result), len(result[e].hosts) <= s.rf)
+//@   ensures forall(e, 0 <= e && e < len(result), s.rf >= 1 ==> len(result[e].hosts) >= 1)
+//@   ensures forall(e, 0 <= e && e < len(result), forall(a, forall(b, 0 <= a && a < b && b < len(result[e].hosts) ==> result[e].hosts[a] != result[e].hosts[b])))
+//@   loop 0: invariant -1 <= rangeindex && rangeindex < len(tokens) && len(ring) == len(tokens) && same(tokens, tokenRing.tokens) && fresh(ring)
+//@   loop 0: invariant forall(e, 0 <= e && e <= rangeindex, len(ring[e].hosts) <= s.rf && (s.rf >= 1 ==> len(ring[e].hosts) >= 1 && ring[e].hosts[0] == tokens[e].host) && same(ring[e].token, tokens[e].token))
+//@   loop 0: invariant forall(e, 0 <= e && e <= rangeindex, forall(a, forall(b, 0 <= a && a < b && b < len(ring[e].hosts) ==> ring[e].hosts[a] != ring[e].hosts[b])))
+//@   loop 1: invariant 0 <= j && j <= len(tokens) && len(replicas) <= s.rf && len(replicas) <= j && fresh(replicas) && seen != nil
+//@   loop 1: invariant j >= 1 && s.rf >= 1 ==> len(replicas) >= 1 && replicas[0] == tokens[i].host
+//@   loop 1: invariant forall(c, 0 <= c && c < len(replicas), seen[replicas[c]])
+//@   loop 1: invariant forall((*HostInfo)(x), j == 0 ==> !seen[x])
+// the walk goes on until rf distinct nodes are found or the whole ring has been visited,
+// and every node visited so far has been taken (is in seen)
+//@   loop 1: exit len(replicas) == s.rf || j == len(tokens)
+//@   loop 1: invariant forall(c, 0 <= c && c < j, seen[tokens[(i+c)%len(tokens)].host])
+// the entries finished by earlier iterations of the outer loop are untouched
+//@   loop 1: invariant 0 <= i && i < len(tokens) && len(ring) == len(tokens) && same(tokens, tokenRing.tokens) && fresh(ring)
+//@   loop 1: invariant forall(e, 0 <= e && e < i, len(ring[e].hosts) <= s.rf && (s.rf >= 1 ==> len(ring[e].hosts) >= 1 && ring[e].hosts[0] == tokens[e].host) && same(ring[e].token, tokens[e].token))
+//@   loop 1: invariant forall(e, 0 <= e && e < i, forall(a, forall(b, 0 <= a && a < b && b < len(ring[e].hosts) ==> ring[e].hosts[a] != ring[e].hosts[b])))
+//@   loop 1: invariant forall(a, forall(b, 0 <= a && a < b && b < len(replicas) ==> replicas[a] != replicas[b]))
+
 // ---- token-aware policy
 // Interface assumptions (documented contracts of the interfaces; proved above for rackAwareRR):
 //@ func (recv HostTierer) HostTier
@@ -1384,9 +1473,27 @@ package gocql
 //@   ensures result == sel_info(recv)
 
 // Replica lists hold hosts of the ring (C10): entries are non-nil. Assumed here.
-//@ func (h tokenRingReplicas) replicasFor
-//@   trusted returns a pointer into the replica table (interior pointer: outside the memory model); the table's host lists hold ring hosts, never nil (C10)
+//@ func (recv token) Less
+//@   interface
+//@   trusted token comparison has no side effects and is a function of the two tokens
 //@   modifies nothing
+//@   ensures result == tok_less(recv, arg0)
+
+// Ring lookup: the entry chosen is the first whose token is not below the lookup token, or - when
+// the lookup token is above the last ring token - the first entry of the ring (wrap-around). This is
+// what binary search guarantees for any predicate; with the ring sorted it is the owner of the range
+// (previous token, token]. The result is a pointer into the table (interior pointer: outside the
+// memory model), so the postconditions are assumed by callers and the lookup itself is checked
+// by the at_return clauses.
+//@ func (h tokenRingReplicas) replicasFor
+//@   props C10 C11
+//@   trusted_ensures interior pointer result; host lists hold ring hosts, never nil (C10)
+// ring entries carry the token parsed by the partitioner, never a nil interface (assumed)
+//@   assume forall(k, 0 <= k && k < len(h), h[k].token != nil)
+//@   modifies nothing
+//@   at_return len(h) > 0 ==> 0 <= p && p < len(h)
+//@   at_return len(h) > 0 ==> !tok_less(h[p].token, t) || (p == 0 && tok_less(h[len(h)-1].token, t))
+//@   at_return len(h) > 0 ==> p == 0 || tok_less(h[p-1].token, t)
 //@   ensures len(h) == 0 ==> result == nil
 //@   ensures result != nil ==> forall(b, 0 <= b && b < len(result.hosts), result.hosts[b] != nil)
 
@@ -1401,6 +1508,10 @@ package gocql
 //@   nil_receiver_ok
 //@   modifies nothing
 //@   ensures (t == nil || len(t.tokens) == 0) ==> result0 == nil
+//@   assume t != nil ==> forall(k, 0 <= k && k < len(t.tokens), t.tokens[k].token != nil)
+//@   at_return t != nil && len(t.tokens) > 0 ==> 0 <= p && p < len(t.tokens) && same(v, t.tokens[p])
+//@   at_return t != nil && len(t.tokens) > 0 ==> !tok_less(t.tokens[p].token, token) || (p == 0 && tok_less(t.tokens[len(t.tokens)-1].token, token))
+//@   at_return t != nil && len(t.tokens) > 0 ==> p == 0 || tok_less(t.tokens[p-1].token, token)
 
 // What a query object does while the policy picks: it never writes the policy's cluster metadata
 // (clusterMeta, tokenRing and the replica tables are copy-on-write and replaced only by the policy).
